@@ -29,9 +29,11 @@ def oklab_of_linsrgb(r, g, b):
             0.0259040371 * l_ + 0.7827717662 * m_ - 0.8086757660 * s_)
 # the CIE definitions relative to other white points (binaries convstd64 / convstd32)
 STD_EDGES = [("xyz50", "lab50"), ("lab50", "xyz50"), ("xyz50", "luv50"), ("luv50", "xyz50"), ("lab50", "lch50"), ("lch50", "lab50"),
-             ("xyzdci", "labdci"), ("labdci", "xyzdci")]
+             ("xyzdci", "labdci"), ("labdci", "xyzdci"),
+             ("hsv", "hsv_linsrgb"), ("hsv_linsrgb", "hsv"), ("hsl", "hsl_linsrgb"), ("hsl_linsrgb", "hsl")]
 STD_RANGES = {"xyz50": [(0, 0.96422), (0, 1), (0, 0.82521)], "lab50": NODES["lab"], "lch50": NODES["lch"], "luv50": NODES["luv"],
-              "xyzdci": [(0, 0.89459), (0, 1), (0, 0.95442)], "labdci": NODES["lab"]}
+              "xyzdci": [(0, 0.89459), (0, 1), (0, 0.95442)], "labdci": NODES["lab"],
+              "hsv": NODES["hsv"], "hsv_linsrgb": NODES["hsv"], "hsl": NODES["hsl"], "hsl_linsrgb": NODES["hsl"]}
 WHITE = (0.95047, 1.0, 1.08883)
 LAB_EPS = 216.0 / 24389.0
 
@@ -118,6 +120,8 @@ def gen_std(ctx, path):
     c = Cmds(path)
     nr, nl = (30, 20) if ctx.quick else (400, 150)
     for (a, b) in STD_EDGES:
+        if a[:3] in ("hsv", "hsl") and ctx.quick:
+            nr, nl = 12, 8
         axes = [[0.0, 77.0, 180.0, 301.5] if r is None else in_lattice(*r) for r in STD_RANGES[a]]
         lat = list(itertools.product(*axes))
         pts = [tuple(rnd.uniform(0, 360) if r is None else rnd.uniform(*r) for r in STD_RANGES[a]) for _ in range(nr)]
@@ -130,6 +134,10 @@ def gen_std(ctx, path):
                     p[k] = t * w[k]
                     pts.append(tuple(p))
             pts += [tuple(w), tuple(LAB_EPS * x for x in w), (1e-6, 1e-6, 1e-6)]
+        elif a[:3] in ("hsv", "hsl"):     # sector edges, the join of the transfer curve (value 0.04045 / 0.0031308), greys
+            j = 0.04045 if "lin" not in a else 0.0031308
+            pts += [(h, s_, v) for h in (0.0, 59.99, 60.0, 120.0, 180.0, 240.0, 300.0, 359.99) for (s_, v) in ((1.0, 1.0), (0.5, 0.5), (0.3, j), (0.0, 0.7))]
+            pts += [(33.0, 0.5, j * f) for f in (0.999, 1.0, 1.001)]
         else:
             pts += [(L, 0.0, 0.0) for L in straddle(8.0, 1e-7)] + [(L, 10.0, -10.0 if "lch" not in a else 200.0) for L in (7.9, 8.1, 50.0)]
         for p in pts:
@@ -177,7 +185,7 @@ def run(ctx):
                   explanation="MC_ColourMath: 17 self-checks of the reference (derived sRGB matrix hits the white point and inverts, f(t) "
                               "continuous at the join, known exact points accepted, perturbed points rejected). MC_OkColour: the transcribed Okhsv / Okhsl / "
                               "HSLuv procedures mean what they are for on a hue grid (s = v = 1 is the gamut cusp, s = 1 the gamut surface, toe "
-                              "inverse, a 2 % perturbation fails). 48 directed edges x lattice, "
+                              "inverse, a 2 % perturbation fails). 52 directed edges x lattice, "
                               "threshold-straddling and random inputs x f32/f64 are judged by TLC with the relations of ColourMath.tla in "
                               "104-bit fixed point.",
                   trusted=["reference constants and formulas written in spec/ColourMath.tla with their citations",
